@@ -1,6 +1,6 @@
 // harness for michael_scott / ramalhete / nikolaev / kirsch_kfifo (reclaimer selected by -DXV_RECL=<alias>)
 // and kirsch_bounded_kfifo (no reclaimer)  (C04, C06, C07, C16; with the reclaimers also C01/C02)
-//   cfg q=ms|ram|nik|kf|kfb elem=int|obj|ptr|uptr|small epn=1|2|4 retries=0|1|2 k=.. segs=.. drain=0|1
+//   cfg q=ms|ram|nik|kf|kfb elem=int|obj|ptr|uptr|small epn=1|2|3|4|11 retries=0|1|2 k=.. segs=.. drain=0|1
 #include "hq.hpp"
 
 #include "recl_types.hpp"
@@ -67,6 +67,8 @@ template <class K> static Adapter* mk_kfb(const Case& c) {
 template <class K> static Adapter* ram_sizes(long e, long p) {
   if (e == 1) return p == 0 ? mk_ram<K, 1, 0>() : mk_ram<K, 1, 2>();
   if (e == 2) return p == 0 ? mk_ram<K, 2, 0>() : mk_ram<K, 2, 1>();
+  if (e == 3) return mk_ram<K, 3, 1>();     // not a power of two
+  if (e == 11) return mk_ram<K, 11, 0>();   // a multiple of the index step (11)
   return p == 0 ? mk_ram<K, 4, 0>() : mk_ram<K, 4, 2>();
 }
 template <class K> static Adapter* nik_sizes(long e, long p) {
